@@ -364,7 +364,7 @@ func (rn *c20Runner) run(c c20Case) {
 	describe := func() string {
 		e := "<nil>"
 		if res.err != nil {
-			e = res.err.Error()
+			e = c20Printable(res.err.Error())
 			if len(e) > 300 {
 				e = e[:300] + "…"
 			}
@@ -395,7 +395,7 @@ func (rn *c20Runner) run(c c20Case) {
 			rec.Count(c.Route+".violating_cases", 1)
 		}
 		if what, ok := rn.expect(c, res); !ok {
-			rec.HarnessError("non-vacuity: benign case %s did not produce %s (err=%v panic=%q note=%q inside=%v)", c.id(), what, res.err, res.panicked, res.note, insideL)
+			rec.HarnessError("non-vacuity: benign case %s did not produce %s (err=%s panic=%q note=%q inside=%q)", c.id(), what, c20Printable(fmt.Sprint(res.err)), res.panicked, res.note, insideL)
 		} else if what != "" {
 			rec.Count(c.Route+".benign_as_expected", 1)
 		}
@@ -403,7 +403,7 @@ func (rn *c20Runner) run(c c20Case) {
 			// (self-test cases are sampled below)
 			e := ""
 			if res.err != nil {
-				e = res.err.Error()
+				e = c20Printable(res.err.Error())
 				if len(e) > 160 {
 					e = e[:160] + "…"
 				}
@@ -474,6 +474,12 @@ func (rn *c20Runner) run(c c20Case) {
 			rec.HarnessError("reset output directory: %v", err)
 		}
 	}
+}
+
+// c20Printable escapes control bytes (error texts echo the hostile names, NUL included).
+func c20Printable(s string) string {
+	q := fmt.Sprintf("%q", s)
+	return q[1 : len(q)-1]
 }
 
 func c20Short(s string) string {
@@ -602,15 +608,15 @@ func TestVerifC20(t *testing.T) {
 		rec.Note(fmt.Sprintf("entries with watched names were present under / at the end of shard %d and were removed: %d", rec.ShardI, len(tp)))
 	}
 	// closing listing with every content hash recomputed
-	if rn.g != nil && rn.before != nil {
+	if rn.before != nil {
 		if fin, err := rn.g.snapOutside(true); err != nil {
 			rec.HarnessError("listing: %v", err)
 		} else if d := c20DiffSnap(rn.before, fin); len(d) > 0 {
 			rec.HarnessError("closing full listing differs from the last per-case listing (a change escaped the stat-keyed hash cache): %v", d)
 		}
-		rec.Count("listings", int64(rn.g.nSnap))
-		rec.Count("content_hashes_computed", int64(rn.g.nHashed))
 	}
+	rec.Count("listings", int64(rn.g.nSnap))
+	rec.Count("content_hashes_computed", int64(rn.g.nHashed))
 	if only != "" {
 		rec.NotExhaustive("VERIF_C20_ONLY filter active")
 		return
